@@ -24,7 +24,7 @@ from common import qlit, qlist, zlit, coqc, coqc_many, parse_evals, parse_zlist,
 import c07_impl as I
 
 THEOREMS = ["C07_policy_domain_complete", "C07_policy_model_meets_spec", "C07_policy_missing_data",
-            "C07_policy_returned_rate", "C07_policy_wavelength", "C07_policy_isotope_wavelength",
+            "C07_policy_returned_rate", "C07_policy_wavelength", "C07_policy_isotope_wavelength", "C07_history_independent",
             "C07_rate2_node_partial", "C07_rate3_node_partial", "C07_beam_node_partial",
             "C07_beam_at_reference_partial", "C07_beam_cx_node_partial", "C07_nonneg", "C07_guard_zero",
             "C07_range_policy", "C07_exec_instance_lawful", "C07_checked_axis_is_axis"]
@@ -106,10 +106,12 @@ def build_policy_repo(acc, base, rate_av, decoy, wl_iso, wl_el):
     return repo
 
 
-def classify_policy(acc, obj, cf):
-    """what came back, as a pout constructor (string) -- by behaviour only"""
+def classify_policy(acc, obj, cf, scale=1.0, lam_iso=WL_ISO, lam_el=WL_EL):
+    """what came back, as a pout constructor (string) -- by behaviour only.
+    scale: factor of the element's table currently stored; lam_iso / lam_el: wavelengths currently stored for the
+    requested isotope / the element (None: not stored)"""
     if acc.name == "wavelength":
-        return "PWave WIso" if obj == WL_ISO else "PWave WEl" if obj == WL_EL else "POther"
+        return "PWave WIso" if obj == lam_iso else "PWave WEl" if obj == lam_el else "POther"
     objs = obj if isinstance(obj, list) else [obj]
     if acc.name == "beam_cx_pec":
         if not isinstance(obj, list) or len(obj) != 1:
@@ -129,10 +131,10 @@ def classify_policy(acc, obj, cf):
     base = float(I.node_value(acc.family, data, [1] * len(axes)))
     ratio = r[1] / base
     found = None
-    for (s1, s2, f) in (("SrcEl", "SrcEl", 1.0), ("SrcIso", "SrcEl", 2.0), ("SrcEl", "SrcIso", 3.0), ("SrcIso", "SrcIso", 5.0)):
+    for (s1, s2, f) in (("SrcEl", "SrcEl", scale), ("SrcIso", "SrcEl", 2.0), ("SrcEl", "SrcIso", 3.0), ("SrcIso", "SrcIso", 5.0)):
         if acc.photon:
-            for w, lam in (("WIso", WL_ISO), ("WEl", WL_EL)):
-                if abs(ratio / (f * cf / lam) - 1) < 1e-9:
+            for w, lam in (("WIso", lam_iso), ("WEl", lam_el)):
+                if lam is not None and abs(ratio / (f * cf / lam) - 1) < 1e-9:
                     found = (s1, s2, w)
         elif abs(ratio / f - 1) < 1e-9:
             found = (s1, s2, "WNone")
@@ -272,6 +274,199 @@ def policy_tie(ctx, rows):
             "excluded_known": len(excluded), "checked_by_lemma": n_checked,
             "outcomes": _hist(o.split()[0] + ((" " + o.split()[-1]) if o.startswith("PRate") else "") for _, o in rows),
             "raise_messages_sample": sorted({c.get("message", "") for c, o in rows if o.startswith("PRaise")})[:4]}
+
+
+# =================================================================================================
+# histories on one long-lived provider (T'): sequences of accessor calls and repository additions
+# =================================================================================================
+KIDX = {"el": 0, "iso": 1, "iso2": 2}
+WL_BASE = {"el": 500.0, "iso": 400.0, "iso2": 300.0}
+
+
+def wl_group(acc):
+    return 1 if acc.name in ("beam_cx_pec", "thermal_cx_pec") else 2 if acc.name == "beam_emission_pec" else 0
+
+
+WL_REP = {0: "wavelength", 1: "beam_cx_pec", 2: "beam_emission_pec"}     # an accessor of each wavelength group
+
+
+class History:
+    """one repository, one OpenADAS instance; every op is executed on the real code and written as a Coq hop"""
+
+    def __init__(self, ctx, scratch, tag, flags, cf):
+        self.repo = I.fresh_repo(scratch, "h_%s" % tag)
+        self.flags, self.cf, self.ctx = flags, cf, ctx
+        self.adas = I.make_adas(self.repo, *flags)
+        self.scale, self.decoy, self.wl, self.wl_n = {}, set(), {}, {}
+        self.ops, self.observed, self.log = [], [], []
+
+    def set_rate(self, acc, v):
+        rs = I.ACCS.index(acc) * 2 + v
+        self.scale[rs] = 7.0 if self.scale.get(rs) == 1.0 else 1.0          # storing again changes the numbers
+        I.store_rate(acc, self.repo, I.species(acc, 1, "el"), I.species(acc, 2, "el"),
+                     I.scaled(acc.family, base_table(acc.family), self.scale[rs]), variant=v)
+        self.ops.append("HSetRate %d" % rs)
+        self.log.append("add rate %s variant %d (table x %g)" % (acc.name, v, self.scale[rs]))
+
+    def set_decoy(self, acc, v):
+        rs = I.ACCS.index(acc) * 2 + v
+        data = base_table(acc.family)
+        kinds2 = ("el", "iso", "iso2") if acc.slots == 2 else ("el",)
+        for a in ("el", "iso", "iso2"):
+            for b in kinds2:
+                f = {(False, False): None, (True, False): 2.0, (False, True): 3.0, (True, True): 5.0}[(a != "el", b != "el")]
+                if f:
+                    I.store_rate(acc, self.repo, I.species(acc, 1, a), I.species(acc, 2, b), I.scaled(acc.family, data, f), variant=v)
+        self.decoy.add(rs)
+        self.ops.append("HSetDecoy %d" % rs)
+        self.log.append("add decoy tables under the isotope paths of %s variant %d" % (acc.name, v))
+
+    def set_wl(self, group, v, kind):
+        acc = I.BY_NAME[WL_REP[group]]
+        w = group * 6 + v * 3 + KIDX[kind]
+        self.wl_n[w] = self.wl_n.get(w, 0) + 1
+        self.wl[w] = WL_BASE[kind] + 10.0 * self.wl_n[w] + v          # storing again changes the number
+        sp1 = I.species(acc, 1, kind if acc.wl_slot == 1 else "el")
+        sp2 = I.species(acc, 2, kind if acc.wl_slot == 2 else "el")
+        I.store_wavelength(acc, self.repo, sp1, sp2, self.wl[w], variant=v)
+        self.ops.append("HSetWl %d" % w)
+        self.log.append("add wavelength group %d variant %d %s = %g" % (group, v, kind, self.wl[w]))
+
+    def call(self, acc, v, k1, k2="el"):
+        if acc.slots == 1:
+            k2 = "el"
+        rs = I.ACCS.index(acc) * 2 + v
+        g = wl_group(acc)
+        kw = k2 if acc.wl_slot == 2 else k1
+        wi = g * 6 + v * 3 + KIDX[kw if kw != "el" else "iso"]
+        we = g * 6 + v * 3
+        self.ctx.crumb({"history_call": [acc.name, v, k1, k2], "flags": self.flags, "so_far": self.log[-12:]})
+        try:
+            obj = I.call(acc, self.adas, I.species(acc, 1, k1), I.species(acc, 2, k2), variant=v)
+        except Exception as e:           # the outcome of this call; compared with the model inside Coq
+            out = "PRaise %s" % I.err_name(e)
+        else:
+            out = classify_policy(acc, obj, self.cf, scale=self.scale.get(rs, 1.0),
+                                  lam_iso=self.wl.get(wi) if kw != "el" else None, lam_el=self.wl.get(we))
+        kq = lambda k: "KElement" if k == "el" else "KIsotope"
+        self.ops.append("HCall %s %s %s %d %d %d" % (acc.coq, kq(k1), kq(k2), rs, wi, we))
+        self.observed.append(out)
+        self.log.append("%s(%s, %s) variant %d -> %s" % (acc.name, k1, k2, v, out))
+
+
+def run_histories(ctx, scratch, cf, quick):
+    rng = ctx.rng
+    hs = []
+    flagsets = [(p, n, f) for p in (False, True) for n in (False, True) for f in (False, True)]
+    for ai, acc in enumerate(I.ACCS):
+        g = wl_group(acc)
+        pairs = ([("el", "el"), ("iso", "el"), ("el", "iso"), ("iso", "iso"), ("iso2", "iso2"), ("iso2", "iso"), ("el", "el"),
+                  ("iso", "iso")] if acc.slots == 2 else [("el", "el"), ("iso", "el"), ("iso2", "el"), ("iso", "el"), ("el", "el"), ("el", "el")])
+        # H1: everything stored; element / isotope / second isotope / same species twice; then the content changes
+        h = History(ctx, scratch, "a%d" % ai, flagsets[ai % 8], cf)
+        if acc.name != "wavelength":
+            h.set_rate(acc, 0)
+            h.set_decoy(acc, 0)
+        for k in ("el", "iso", "iso2"):
+            h.set_wl(g, 0, k)
+        for k1, k2 in pairs:
+            h.call(acc, 0, k1, k2)
+        if acc.name != "wavelength":
+            h.set_rate(acc, 0)
+        h.call(acc, 0, "el", "el")
+        h.call(acc, 0, "iso", "iso")
+        h.set_wl(g, 0, "el")
+        h.set_wl(g, 0, "iso")
+        h.call(acc, 0, "iso", "iso")
+        h.call(acc, 0, "el", "el")
+        hs.append(h)
+        # H2: isotope first, data arriving while the provider lives, the other charge / transition interleaved
+        h = History(ctx, scratch, "b%d" % ai, flagsets[(ai + 3) % 8], cf)
+        h.call(acc, 0, "iso", "iso")
+        h.call(acc, 0, "el", "el")
+        if acc.name != "wavelength":
+            h.set_rate(acc, 0)
+        h.call(acc, 0, "iso", "iso")
+        h.call(acc, 1, "el", "el")
+        if acc.name != "wavelength":
+            h.set_rate(acc, 1)
+        h.set_wl(g, 1, "el")
+        h.call(acc, 1, "el", "el")
+        h.call(acc, 1, "iso", "el")
+        h.set_wl(g, 0, "iso")
+        h.call(acc, 0, "iso", "iso")
+        h.call(acc, 0, "el", "iso")
+        h.set_wl(g, 0, "el")
+        h.call(acc, 0, "iso", "iso")
+        h.call(acc, 0, "el", "el")
+        h.call(acc, 1, "iso2", "iso2")
+        hs.append(h)
+    # random histories: all 14 accessors, charges / transitions / donors interleaved on one provider
+    for r in range(24 if quick else 240):
+        h = History(ctx, scratch, "r%d" % (r % 8), rng.choice(flagsets), cf)
+        for _ in range(rng.randint(25, 45)):
+            u = rng.random()
+            acc = rng.choice(I.ACCS)
+            v = rng.randint(0, 1)
+            if u < 0.14 and acc.name != "wavelength":
+                h.set_rate(acc, v)
+            elif u < 0.18 and acc.name != "wavelength":
+                h.set_decoy(acc, v)
+            elif u < 0.32:
+                h.set_wl(rng.randint(0, 2), v, rng.choice(["el", "iso", "iso2"]))
+            else:
+                h.call(acc, v, rng.choice(["el", "iso", "iso2"]), rng.choice(["el", "iso", "iso2"]))
+        hs.append(h)
+    return hs
+
+
+def histories_tie(ctx, hs):
+    b = lambda x: "true" if x else "false"
+    txt = ["Require Import Cherab.Common.Qx Cherab.Model.C07_Policy."]
+    for i, h in enumerate(hs):
+        txt.append("Definition ops%d : list hop := [%s]." % (i, "; ".join(h.ops)))
+        txt.append("Eval vm_compute in (hcheck %s %s %s ops%d [%s])." % (b(h.flags[0]), b(h.flags[1]), b(h.flags[2]), i, "; ".join(h.observed)))
+    ok, out = coqc(ctx.write_gen("Histories.v", "\n".join(txt) + "\n"), timeout=900)
+    vals = parse_evals(out) if ok else []
+    n_calls = sum(len(h.observed) for h in hs)
+    if not ok or len(vals) != len(hs):
+        ctx.obligation("provider histories compile (Gen/C07/Histories.v)", "correspondence", False, out)
+        ctx.broken.append("coqc failed on Gen/C07/Histories.v: " + out[-800:])
+        return {}
+    bad = [(i, parse_zlist(v)) for i, v in enumerate(vals) if parse_zlist(v)]
+    expected = {}
+    if bad:
+        ex = ["Require Import Cherab.Common.Qx Cherab.Model.C07_Policy."]
+        for i, _ in bad[:6]:
+            h = hs[i]
+            ex.append("Eval vm_compute in (hrun %s %s %s st0 [%s])." % (b(h.flags[0]), b(h.flags[1]), b(h.flags[2]), "; ".join(h.ops)))
+        ok2, out2 = coqc(ctx.write_gen("ExplainH.v", "\n".join(ex) + "\n"), timeout=600)
+        for (i, _), v in zip(bad[:6], parse_evals(out2) if ok2 else []):
+            expected[i] = [t.strip() for t in v.strip().strip("[]").split(";")]
+    seen = set()
+    for i, idx in bad[:6]:
+        h = hs[i]
+        j = idx[0] if idx[0] < len(h.observed) else len(h.observed) - 1
+        exp = expected.get(i, ["?"] * (j + 1))[j] if j < len(expected.get(i, [])) else "?"
+        calls = [l for l in h.log if "->" in l]
+        accname = calls[j].split("(")[0]
+        key = "c07:history:%s:%s" % (accname, aspect(exp, h.observed[j]) if exp != "?" else "outcome")
+        if key in seen:
+            continue
+        seen.add(key)
+        upto = h.log.index(calls[j]) + 1
+        ctx.violation(key, "one OpenADAS(permit_extrapolation=%s, missing_rates_return_null=%s, wavelength_element_fallback=%s) "
+                           "instance, call %d of the history: %s -- the model gives %s for these arguments and the repository "
+                           "content at that moment" % (h.flags + (j + 1, calls[j], exp)),
+                      {"flags": h.flags, "history_up_to_the_failing_call": h.log[:upto], "expected_by_model": exp,
+                       "observed": h.observed[j], "all_failing_call_positions": idx}, found=True)
+    ctx.obligation("provider histories: every object returned by %d calls in %d histories on long-lived providers == model "
+                   "outcome for its own arguments and the current repository content, inside Coq" % (n_calls, len(hs)),
+                   "correspondence", not bad, "failing (history, call positions): %s" % bad[:10])
+    return {"histories": len(hs), "calls": n_calls, "repository_additions": sum(len(h.ops) - len(h.observed) for h in hs),
+            "outcomes": _hist(o.split()[0] for h in hs for o in h.observed),
+            "calls_by_accessor": _hist(l.split("(")[0] for h in hs for l in h.log if "->" in l),
+            "failing_histories": len(bad), "sample": hs[0].log[:8]}
 
 
 def _hist(it):
@@ -414,6 +609,21 @@ def gen_object(rng, acc, rnd, max_nodes=40):
     if acc.photon and kind_w == "iso" and rng.random() < 0.25:
         spec["wl_iso"], spec["fb"] = None, True          # element's wavelength through the documented fallback
     spec["points"] = gen_points(rng, acc.family, data, max_nodes)
+    # the same provider is asked several times: first for the other species kind of the same line (the kind of the
+    # species that owns the wavelength is flipped for photon accessors), then for the object under test, then for it
+    # again, then -- after the repository got a new table (x 7) and new wavelengths -- once more
+    alt = dict(k1=spec["k1"], k2=spec["k2"])
+    flip = "k2" if acc.wl_slot == 2 else "k1"
+    alt[flip] = "el" if spec[flip] == "iso" else "iso"
+    nodes = [pt for pt in spec["points"] if pt[0] == "node"]
+    few = lambda n: rng.sample(nodes, min(n, len(nodes)))
+    spec["seq"] = [{"what": "other-kind-first", "k1": alt["k1"], "k2": alt["k2"], "points": few(3)},
+                   {"what": "main"},
+                   {"what": "same-again", "points": few(2)},
+                   {"what": "after-repository-change", "table_factor": 7.0, "wl_factor": 1.0 + rng.uniform(0.002, 0.05),
+                    "points": few(3)}]
+    if rng.random() < 0.5:
+        spec["seq"][0], spec["seq"][1] = spec["seq"][1], spec["seq"][0]
     return spec
 
 
@@ -432,26 +642,8 @@ def spec_wavelength(acc, spec):
     return spec["wl_el"]
 
 
-def run_object(spec, scratch, tag):
-    """store, fetch, evaluate.  Returns dict(construct=..., outs=[...])"""
-    acc = I.BY_NAME[spec["acc"]]
-    repo = I.fresh_repo(scratch, "x_%s" % tag)
-    el1, iso1 = I.species(acc, 1, "el"), I.species(acc, 1, "iso")
-    el2, iso2 = I.species(acc, 2, "el"), I.species(acc, 2, "iso")
-    I.store_rate(acc, repo, el1, el2, spec["data"])
-    # different tables under the isotope paths: an isotope request must not pick them up
-    if spec["k1"] == "iso" or spec["k2"] == "iso":
-        I.store_rate(acc, repo, iso1, el2, I.scaled(acc.family, spec["data"], 2.0))
-        if acc.slots == 2:
-            I.store_rate(acc, repo, el1, iso2, I.scaled(acc.family, spec["data"], 3.0))
-            I.store_rate(acc, repo, iso1, iso2, I.scaled(acc.family, spec["data"], 5.0))
-    if acc.photon:
-        if spec["wl_iso"] is not None:
-            I.store_wavelength(acc, repo, iso1, iso2, spec["wl_iso"])
-        if spec["wl_el"] is not None:
-            I.store_wavelength(acc, repo, el1, el2, spec["wl_el"])
-    adas = I.make_adas(repo, spec["pe"], spec["null"], spec["fb"])
-    sp1, sp2 = I.species(acc, 1, spec["k1"]), I.species(acc, 2, spec["k2"])
+def fetch(acc, adas, sub):
+    sp1, sp2 = I.species(acc, 1, sub["k1"]), I.species(acc, 2, sub["k2"])
     try:
         obj = I.call(acc, adas, sp1, sp2)
     except Exception as e:       # recorded and judged by the property statement below
@@ -459,8 +651,50 @@ def run_object(spec, scratch, tag):
     rate = obj[0] if isinstance(obj, list) and len(obj) == 1 else obj
     if isinstance(rate, list):
         return {"construct": ("bad", "beam_cx_pec returned %d rates for one stored metastable" % len(rate)), "outs": []}
-    outs = [I.evalpt(rate, args) for _, args in spec["points"]]
+    outs = [I.evalpt(rate, args) for _, args in sub["points"]]
     return {"construct": ("ok",), "outs": outs, "impl_wavelength": getattr(rate, "wavelength", None)}
+
+
+def run_sequence(spec, scratch, tag):
+    """store; then ONE provider is asked for every step of spec['seq'] (a corpus object: just itself), the repository
+    changing under it where the step says so.  Returns [(sub-spec, result)]: every returned object is evaluated and
+    judged against the table / wavelength / species of ITS OWN request."""
+    acc = I.BY_NAME[spec["acc"]]
+    repo = I.fresh_repo(scratch, "x_%s" % tag)
+    el1, iso1 = I.species(acc, 1, "el"), I.species(acc, 1, "iso")
+    el2, iso2 = I.species(acc, 2, "el"), I.species(acc, 2, "iso")
+    seq = spec.get("seq") or [{"what": "main"}]
+
+    def store(data, wl_iso, wl_el):
+        I.store_rate(acc, repo, el1, el2, data)
+        # different tables under the isotope paths: an isotope request must not pick them up
+        I.store_rate(acc, repo, iso1, el2, I.scaled(acc.family, data, 2.0))
+        if acc.slots == 2:
+            I.store_rate(acc, repo, el1, iso2, I.scaled(acc.family, data, 3.0))
+            I.store_rate(acc, repo, iso1, iso2, I.scaled(acc.family, data, 5.0))
+        if acc.photon:
+            if wl_iso is not None:
+                I.store_wavelength(acc, repo, iso1, iso2, wl_iso)
+            if wl_el is not None:
+                I.store_wavelength(acc, repo, el1, el2, wl_el)
+    cur = {"data": spec["data"], "wl_iso": spec["wl_iso"], "wl_el": spec["wl_el"]}
+    store(cur["data"], cur["wl_iso"], cur["wl_el"])
+    adas = I.make_adas(repo, spec["pe"], spec["null"], spec["fb"])       # the one long-lived provider
+    out = []
+    for step in seq:
+        if step["what"] == "after-repository-change":
+            cur = {"data": I.scaled(acc.family, cur["data"], step["table_factor"]),
+                   "wl_iso": None if cur["wl_iso"] is None else cur["wl_iso"] * step["wl_factor"],
+                   "wl_el": None if cur["wl_el"] is None else cur["wl_el"] * step["wl_factor"]}
+            store(cur["data"], cur["wl_iso"], cur["wl_el"])
+        sub = dict(spec, **cur)
+        sub.pop("seq", None)
+        sub.pop("_maxrel", None)
+        sub["step"] = step["what"]
+        sub["k1"], sub["k2"] = step.get("k1", spec["k1"]), step.get("k2", spec["k2"])
+        sub["points"] = spec["points"] if step["what"] == "main" else step["points"]
+        out.append((sub, fetch(acc, adas, sub)))
+    return out
 
 
 def log10_endpoint_mismatch(family, data, args):
@@ -637,6 +871,11 @@ def run(ctx):
     pol = policy_tie(ctx, rows) or {}
     ctx.log("policy tie: %s" % {k: pol.get(k) for k in ("domain", "differ_from_model", "excluded_known", "checked_by_lemma")})
 
+    # ---- (T') histories on long-lived providers ---------------------------------------------------------
+    hs = run_histories(ctx, scratch, cf, quick)
+    hist_cov = histories_tie(ctx, hs) or {}
+    ctx.log("histories: %s" % {k: hist_cov.get(k) for k in ("histories", "calls", "repository_additions", "failing_histories")})
+
     # ---- (X) objects: corpus first, then generated ----------------------------------------------------
     specs = []
     for path in sorted(glob.glob(os.path.join(VERIF, "corpus", "C07", "*.json"))):
@@ -656,45 +895,55 @@ def run(ctx):
     findings = {}          # key -> (text, replay)
     obj_lines, pt_lines, pt_meta = [], [], []      # pt_meta[i] = (spec index, point index or -1 for wf, verdict key)
     dist = {"objects_by_accessor": {}, "axis_lengths": {}, "point_classes": {}, "flags": {}, "species": {},
-            "construct_failures": 0, "objects_with_single_point_axis": 0, "style": {}}
+            "construct_failures": 0, "objects_with_single_point_axis": 0, "style": {}, "returned_objects_by_step": {}}
     n_eval, maxrel = 0, 0.0
     shards = []
-    for si, s in enumerate(specs):
-        acc = I.BY_NAME[s["acc"]]
-        ctx.crumb({"object": {k: v for k, v in s.items() if k != "points"}})
-        res = run_object(s, scratch, "%d" % (si % 8))
-        lam = spec_wavelength(acc, s)
+    subs = []               # every object a provider returned: (sub-spec, origin spec index)
+    for si0, s0 in enumerate(specs):
+        acc = I.BY_NAME[s0["acc"]]
+        ctx.crumb({"object": {k: v for k, v in s0.items() if k != "points"}})
         dist["objects_by_accessor"][acc.name] = dist["objects_by_accessor"].get(acc.name, 0) + 1
-        axes = I.axes_of(s["family"], s["data"])
+        axes = I.axes_of(s0["family"], s0["data"])
         for a in axes:
             dist["axis_lengths"][len(a)] = dist["axis_lengths"].get(len(a), 0) + 1
         dist["objects_with_single_point_axis"] += any(len(a) == 1 for a in axes)
-        fl = "pe=%d fb=%d" % (s["pe"], s["fb"])
+        fl = "pe=%d fb=%d" % (s0["pe"], s0["fb"])
         dist["flags"][fl] = dist["flags"].get(fl, 0) + 1
-        sk = "%s/%s" % (s["k1"], s["k2"])
-        dist["species"][sk] = dist["species"].get(sk, 0) + 1
-        dist["style"][s.get("style", "corpus")] = dist["style"].get(s.get("style", "corpus"), 0) + 1
-        jc = judge_construct(s, res)
-        if jc:
-            dist["construct_failures"] += 1
-            findings.setdefault(jc[0], (jc[1], {"object": _replay_obj(s), "construct": res["construct"]}))
-            continue
-        name = "o%d" % si
-        odef, wf, pt = coq_object(name, s, lam if lam is not None else 1.0, cf)
-        obj_lines.append((si, odef))
-        pt_lines.append("%s %s" % (wf, name))
-        pt_meta.append((si, -1, None))
-        for pi, ((cls, args), out) in enumerate(zip(s["points"], res["outs"])):
-            n_eval += 1
-            dist["point_classes"][cls] = dist["point_classes"].get(cls, 0) + 1
-            v = judge_point(s, lam, cf, args, out)
-            if v:
-                findings.setdefault(v[0], (v[1], {"object": _replay_obj(s), "args": [float(a).hex() for a in args],
-                                                  "args_decimal": args, "observed": out,
-                                                  "impl_wavelength": res.get("impl_wavelength")}))
-            pt_lines.append("%s %s %s %s" % (pt, name, " ".join(q(a) for a in args), coq_out(out)))
-            pt_meta.append((si, pi, v[0] if v else None))
-        maxrel = max(maxrel, s.get("_maxrel", 0.0))
+        dist["style"][s0.get("style", "corpus")] = dist["style"].get(s0.get("style", "corpus"), 0) + 1
+        for s, res in run_sequence(s0, scratch, "%d" % (si0 % 8)):
+            si = len(subs)
+            subs.append(s)
+            dist["returned_objects_by_step"][s["step"]] = dist["returned_objects_by_step"].get(s["step"], 0) + 1
+            sk = "%s/%s" % (s["k1"], s["k2"])
+            dist["species"][sk] = dist["species"].get(sk, 0) + 1
+            lam = spec_wavelength(acc, s)
+            jc = judge_construct(s, res)
+            if jc:
+                dist["construct_failures"] += 1
+                findings.setdefault(jc[0], (jc[1], {"object": _replay_obj(s), "construct": res["construct"]}))
+                continue
+            name = "o%d" % si
+            odef, wf, pt = coq_object(name, s, lam if lam is not None else 1.0, cf)
+            obj_lines.append((si, odef))
+            pt_lines.append("%s %s" % (wf, name))
+            pt_meta.append((si, -1, None))
+            for pi, ((cls, args), out) in enumerate(zip(s["points"], res["outs"])):
+                n_eval += 1
+                dist["point_classes"][cls] = dist["point_classes"].get(cls, 0) + 1
+                v = judge_point(s, lam, cf, args, out)
+                if v:
+                    key = v[0] if s["step"] == "main" or v[0] in (K_SINGLE, K_ENDPOINT) else v[0] + ":" + s["step"]
+                    v = (key, v[1] + " [object returned by step '%s' of a sequence of requests on one provider: %s]"
+                         % (s["step"], [st["what"] for st in s0.get("seq", [])]))
+                    findings.setdefault(v[0], (v[1], {"object": _replay_obj(s), "args": [float(a).hex() for a in args],
+                                                      "args_decimal": args, "observed": out,
+                                                      "sequence_on_one_provider": s0.get("seq"),
+                                                      "impl_wavelength": res.get("impl_wavelength")}))
+                pt_lines.append("%s %s %s %s" % (pt, name, " ".join(q(a) for a in args), coq_out(out)))
+                pt_meta.append((si, pi, v[0] if v else None))
+            maxrel = max(maxrel, s.get("_maxrel", 0.0))
+    n_seq = len(specs)
+    specs = subs
     ctx.log('implementation runs done')
     # shard: <= 600 entries per file, object definitions included where used
     per = 600
@@ -760,24 +1009,37 @@ def run(ctx):
     drift = [m for i, m in enumerate(pt_meta) if m[2] is not None and i not in flagged]
     ctx.obligation("every point failing the executable property is also a DIFF inside Coq (%d)" % sum(1 for m in pt_meta if m[2]),
                    "search", not drift, str(drift[:5]))
-    ctx.log("objects %d (corpus %d), evaluations %d, coq DIFF %d (unexplained %d), max rel err at nodes %.2e"
-            % (len(specs), n_corpus, n_eval, n_diff, n_unexplained, maxrel))
+    ctx.log("request sequences %d (corpus %d), returned objects %d, evaluations %d, coq DIFF %d (unexplained %d), max rel err at nodes %.2e"
+            % (n_seq, n_corpus, len(specs), n_eval, n_diff, n_unexplained, maxrel))
 
     # ---- failing-input search result -------------------------------------------------------------------
     ctx.obligation("executable property on the implementation: %d evaluation points of %d rate objects, findings outside "
                    "known_findings.txt: %s" % (n_eval, len(specs), sorted(k for k in findings if k not in ctx.known)),
                    "search", all(k in ctx.known for k in findings), "")
+    # known findings are always reported; of the others the first 6 keys (the obligation above lists all of them)
+    shown = 0
     for key, (text, replay) in sorted(findings.items()):
+        if key not in ctx.known:
+            shown += 1
+            if shown > 6:
+                continue
         ctx.violation(key, text, replay, found=not replay.get("no_failing_input", False))
 
     ctx.coverage.update({
-        "evaluations": n_eval + len(rows),
-        "distinct_nontrivial": n_eval + len(rows),
-        "rule": "policy: one case = one accessor call on a repository prepared for it (complete finite domain, all_cases); "
+        "evaluations": n_eval + len(rows) + hist_cov.get("calls", 0),
+        "distinct_nontrivial": n_eval + len(rows) + hist_cov.get("calls", 0),
+        "rule": "policy: one case = one accessor call on a fresh provider and a repository prepared for it (complete finite domain, "
+                "all_cases); histories: one case = one accessor call inside a sequence of calls and repository additions on ONE "
+                "long-lived provider (two fixed histories per accessor: element / isotope / second isotope / same species twice / "
+                "other charge or transition / data arriving or replaced between calls; plus random histories interleaving all 14 "
+                "accessors), every returned object classified and compared with the model's outcome for its own arguments; "
                 "values: one case = one evaluation of a rate object obtained through OpenADAS from a random positive table "
-                "(13 rate accessors in rotation, every 6th round with a single-point axis); all are non-trivial: each goes "
+                "(13 rate accessors in rotation, every 6th round with a single-point axis), each table requested in a sequence on one "
+                "provider (other species kind first or second, same request again, again after the table and the wavelengths were "
+                "replaced) and EVERY returned object evaluated; all are non-trivial: each goes "
                 "through the real repository files, the accessor and the compiled evaluate()",
-        "distribution": dict(dist, policy=pol, corpus_objects=n_corpus, generated_objects=len(specs) - n_corpus,
+        "distribution": dict(dist, policy=pol, provider_histories=hist_cov, corpus_objects=n_corpus,
+                             generated_request_sequences=n_seq - n_corpus, returned_objects_evaluated=len(specs),
                              max_relative_error_at_grid_points=maxrel),
         "tolerance": {"grid point": "relative 2^-30 inside Coq (1e-9 in the executable property); measured max %.2e" % maxrel,
                       "guard": "exactly 0", "policy outcomes / exception kinds": "exact",
